@@ -159,6 +159,11 @@ pub fn record(args: &[String]) -> i32 {
         }
         if name == "resources" {
             for cp in 0..=0x10FFFFu32 {
+                // the exhaustive sweep is cut into runs of 0x8000 code points (each with the table), so that the runs can be validated in parallel
+                if all_scalars && cp > 0 && cp % 0x8000 == 0 {
+                    run += 1;
+                    emit_table(&mut tr, run, &def);
+                }
                 let c = match char::from_u32(cp) { Some(c) => c, None => continue };
                 let interesting = lower_of(c) != vec![cp] || !quick_yes(c) || c.is_uppercase();
                 if !(all_scalars || interesting || cp < 0x250 || cp % 4099 == 0) { continue; }
